@@ -17,6 +17,7 @@
 #include <set>
 #include <sstream>
 #include <stdexcept>
+#include <system_error>
 #include <thread>
 #include <vector>
 
@@ -390,8 +391,32 @@ void run_pool() {
     sim::clear_env();
     if (env_q) { sim::set_env("OSMIUM_MAX_WORK_QUEUE_SIZE", std::to_string(env_q)); }
 
+    // fault: starting the k-th worker thread fails (EAGAIN). The constructor must report it and leave nothing behind.
+    const bool start_fails = choose(sim::S_FAULT, 8) == 0;
+    const int fail_index = start_fails ? static_cast<int>(choose(sim::S_FAULT, static_cast<uint32_t>(nthreads))) : -1;
+
     sim::RunConfig cfg;
     sim::begin_run(cfg);
+    if (start_fails) {
+        sim::set_thread_create_fail_at(fail_index);
+        bool threw = false;
+        try {
+            osmium::thread::Pool failing{nthreads, qbound};
+        } catch (const std::system_error&) {
+            threw = true;
+        } catch (const std::exception& e) {
+            threw = true;
+            sim::probe("pool start failure reported with another exception type");
+        }
+        sim::set_thread_create_fail_at(-1);
+        sim::probe("worker thread could not be started");
+        if (!threw) {
+            sim::report("oracle", "C19.pool/start-failure-not-reported", "pthread_create failed for worker " + std::to_string(fail_index) + " of " + std::to_string(nthreads) + " but the Pool constructor returned normally");
+        }
+        if (sim::live_threads() != 1) {
+            sim::report("oracle", "C19.pool/worker-not-joined", std::to_string(sim::live_threads() - 1) + " threads alive after the Pool constructor failed (worker " + std::to_string(fail_index) + " could not be started)");
+        }
+    }
     {
         std::vector<int> executed(static_cast<size_t>(total), 0);
         std::vector<int> running_now(1, 0);
